@@ -1,15 +1,15 @@
 #!/bin/bash
 # usage: seedconfirm.sh <dir with patch.diff + zz_seed_*_test.go>   - confirms a seeded change in a scratch worktree
 export GOFLAGS=-mod=mod GOPROXY=off GOSUMDB=off GOTOOLCHAIN=local
-d="$1"; wt=/tmp/seedconf
+d="$1"; wt=/tmp/seedconf; race=""; [ -n "${SEED_RACE:-}" ] && race="-race"
 cd $wt || exit 9
 git checkout -q --detach "$(git -C /repo rev-parse HEAD)" && git checkout -q -- . && git clean -fdq
 demo=$(ls $d/zz_seed_*_test.go | head -1); tname=$(grep -o 'func TestSeed[A-Za-z0-9_]*' $demo | head -1 | cut -c6-)
 cp $demo .
-echo "== demo without change (must pass)"; go test -vet=off -count=1 -timeout 3m -run "^${tname}\$" . 2>&1 | grep -E '^(ok|FAIL|--- FAIL|panic)' | head -3
+echo "== demo without change (must pass)"; go test $race -vet=off -count=1 -timeout 3m -run "^${tname}\$" . 2>&1 | grep -E '^(ok|FAIL|--- FAIL|panic)' | head -3
 git apply $d/patch.diff || { echo "PATCH DOES NOT APPLY"; exit 9; }
 go build ./... && go build -tags verif ./... || { echo "DOES NOT COMPILE"; exit 9; }
-echo "== demo with change (must fail)"; go test -vet=off -count=1 -timeout 3m -run "^${tname}\$" . 2>&1 | grep -E '^(ok|FAIL|--- FAIL|panic)' | head -3
+echo "== demo with change (must fail)"; go test $race -vet=off -count=1 -timeout 3m -run "^${tname}\$" . 2>&1 | grep -E '^(ok|FAIL|--- FAIL|panic)' | head -3
 echo "== pinned baseline with change (must pass)"
 rx=$(python3 -c "import json;b=json.load(open('/root/.vp/BASELINE.json'));print('^('+'|'.join(sorted(n.split('::')[1] for n in b['stable_pass']))+')\$')")
 go test -vet=off -count=1 -timeout 10m -run "$rx" . 2>&1 | grep -E '^(ok|FAIL|--- FAIL|panic)' | head -5
